@@ -105,6 +105,19 @@ def run_case(case, ctx):
             except Exception as e:
                 ctx.fail("positional call with return_positions_and_quats=True returned something that is not (matches, positions, rotations): %s: %s" % (type(e).__name__, str(e)[:120]),
                          key="positional.uninspectable")
+    # the tightest request there is: a tolerance of exactly zero (0.0 or the integer 0) - "exact copies only". Whatever is
+    # reported passes through the same postcondition, which is then evaluated with the tolerance 0 it was given.
+    if case["s"] % 4 == 3:
+        events.seed_all(case["s"] + 13)
+        try:
+            idx, pos, quats = mofun.find_pattern_in_structure(atoms, patoms, atol=[0.0, 0][case["s"] % 8 // 4], return_positions_and_quats=True)
+            st.count("searches_with_zero_tolerance")
+            st.count("matches_at_zero_tolerance", len(idx))
+        except Exception as e:
+            if type(e).__name__ == "PostBroken":
+                raise
+            st.count("searches_that_raised.%s" % type(e).__name__)
+        st.count("direct_searches")
     # the same search as made by the replacement routine (replacement = the pattern itself)
     try:
         events.seed_all(case["s"])
@@ -183,6 +196,8 @@ def requirements(stats, tier):
                     (stats.get("matches_after_inplace_edit"), sorted(stats.sets.get("inplace_edit", []))))
     if stats.get("matches_in_unwrapped_structures") < (100 if tier == "quick" else 5000):
         need.append("matches reported for structures with atoms stored outside the cell: %d" % stats.get("matches_in_unwrapped_structures"))
+    if stats.get("searches_with_zero_tolerance") < (50 if tier == "quick" else 5000):
+        need.append("searches with a tolerance of exactly zero: %d" % stats.get("searches_with_zero_tolerance"))
     if stats.get("searches_with_every_option_by_position") < 50:
         need.append("searches with every option given by position: %d" % stats.get("searches_with_every_option_by_position"))
     if stats.nseen("hint_class") < 5:
